@@ -621,6 +621,7 @@ func decoderPass(c *mon.Case, r *mon.Run, size int, bits []int, seed uint64) {
 func TestCheck(t *testing.T) {
 	r := mon.Start(t, "C05")
 	defer r.Finish()
+	r.SpinWatch(memwire.BytesMoved)
 	r.Note("rule", "(1) frame-accurate tampering with the reference implementation as sender and a real endpoint (server and client role) as victim: single-bit flips of one frame of 7 size classes (21,22,45,100,733,1447,1448 bytes; quick: all 144 bits of length field and tag plus PRNG body bits, thorough: every bit), all 24 permutations of 4 frames (identity = control), every single deletion/duplication, replays of earlier frames, forged frames (random/zero/copy) inserted at every position, truncation+EOF at byte 0,1,2,3,17,18,19,last of every frame, single byte deleted/inserted, length field rewritten to out-of-range classes using the known mask, garbage appended; every tampered stream extends >= 2*1448 bytes beyond the damage or ends with EOF; chunkings {all,1,1447,PRNG}. (2) blind flip/insert/delete/swap at PRNG offsets on real<->real connections (all IAT modes). (3) decoder-level: every bit (quick: sizes step 97 + edges, thorough: every size 0..1427... see exhaustive_part) of a frame through the exported framing API. Non-trivial = a case whose stream really differs from the original; distinct = (class, position, victim, chunking).")
 	dir := o4.StateDir("c05")
 
